@@ -86,6 +86,23 @@ FBoxArch == /\ Family = "fbox" /\ phase = "arch"
                   F' = [F EXCEPT !.glyphs[1].cmds = Arche[i], !.glyphs[2].cmds = Arche[j], !.glyphs[3].cmds = Arche[k]]
             /\ phase' = "done"
 
+\* ---- family biglist (simulation): glyph sets of up to 20 names (upper and lower case), so that
+\* lists are long enough for the sorting algorithm to matter, with an encoding of up to six entries
+BigSeq == <<".notdef", "Ab", "B", "a", "ab", "b", "c", "d01", "d02", "d03", "d04", "d05", "d06", "d07", "d08", "d09",
+            "d10", "d11", "d12", "d13">>
+RECURSIVE Pow2(_)
+Pow2(k) == IF k = 0 THEN 1 ELSE 2 * Pow2(k - 1)
+BigStart == /\ Family = "biglist" /\ phase = "start"
+            /\ \E r \in {RandomElement(0..(Pow2(20) - 1))}, ne \in {RandomElement(0..6)}, m \in {RandomElement(Mats)},
+                  e1 \in {RandomElement(1..20)}, e2 \in {RandomElement(1..20)}, e3 \in {RandomElement(1..20)},
+                  e4 \in {RandomElement(1..20)}, e5 \in {RandomElement(1..20)}, e6 \in {RandomElement(1..20)} :
+                  LET S == {BigSeq[i] : i \in {j \in 1..20 : (r \div Pow2(j - 1)) % 2 = 1 \/ j % 3 = 0}}
+                  IN F' = [glyphs |-> SetToSortSeq({[name |-> n, w |-> 0, cmds |-> <<>>] : n \in S},
+                                                   LAMBDA x, y : FqRank(x.name) < FqRank(y.name)),
+                           enc |-> SubSeq(<<BigSeq[e1], BigSeq[e2], BigSeq[e3], BigSeq[e4], BigSeq[e5], BigSeq[e6]>>, 1, ne),
+                           mat |-> m]
+            /\ phase' = "done"
+
 \* ---- family sim: one draw per step
 SimStart == /\ Family = "sim" /\ phase = "start"
             /\ \E S \in {RandomElement(SUBSET Pool)}, m \in {RandomElement(Mats)}, ne \in {RandomElement(0..4)},
@@ -106,7 +123,7 @@ SimGlyph == /\ Family = "sim" /\ SimIdx > 0
                                                                  ELSE SubSeq(<<c1, c2, c3>>, 1, nc)]
                        /\ phase' = SimNext(SimIdx)
 
-Next == ListPick \/ ListGrow \/ BoxPick \/ BoxGrow \/ FBoxPick \/ FBoxArch \/ SimStart \/ SimGlyph
+Next == ListPick \/ ListGrow \/ BoxPick \/ BoxGrow \/ FBoxPick \/ FBoxArch \/ SimStart \/ SimGlyph \/ BigStart
 
 Ready == CASE Family = "list" -> phase = "enc"
            [] Family = "box" -> phase = "cmds"
